@@ -49,6 +49,14 @@ fn vectors(ctx: &Ctx, rep: &mut Report) {
         return;
     };
     let labels: Vec<&'static [u8]> = vec![b"bpv-ctx-0", b"Tari golden vector", b""];
+    // the instruments first: a probe that deviates from pristine merlin would invalidate every comparison below
+    if ctx.shard == 0 {
+        rep.count("instrument_selftests", 1);
+        if let Err(e) = crate::checks::selftest::merlin_probe_matches_pristine(&g) {
+            rep.inconclusive(format!("C19: instrument self-test failed: {e}"));
+            return;
+        }
+    }
     let mut id = 0usize;
     // ---- Pedersen generators
     id += 1;
